@@ -3,6 +3,7 @@ package cert
 import (
 	"container/list"
 	"crypto/sha256"
+	"encoding/binary"
 	"maps"
 	"slices"
 	"strings"
@@ -93,9 +94,14 @@ func (cache *Cache) BatchVerify(signature hotstuff.QuorumSignature, batch map[ho
 	hasher := sha256.New()
 	// then hash the messages in sorted order
 	for _, id := range ids {
+		// bind every message to its signer and delimit it, so that different batches get different keys
+		_, _ = hasher.Write(id.ToBytes())
+		var length [8]byte
+		binary.LittleEndian.PutUint64(length[:], uint64(len(batch[id])))
+		_, _ = hasher.Write(length[:])
 		_, _ = hasher.Write(batch[id])
 	}
-	hasher.Sum(hash[:])
+	hasher.Sum(hash[:0])
 
 	var key strings.Builder
 	_, _ = key.Write(hash[:])
